@@ -1,4 +1,4 @@
 From Coq Require Import ExtrOcamlBasic ZArith List.
 From LLRP Require Import Retry.NextWait Retry.RetryLoop.
 Extraction Language OCaml.
-Extraction "model.ml" next_wait next_wait_chk pause norm_base norm_max retry_run ferr_is runs.
+Extraction "model.ml" next_wait next_wait_chk pause norm_base norm_max retry_run ferr_is runs retry_run_cfg sched pauses.
